@@ -18,9 +18,16 @@ class XmlGenerator(TreeListener):
         self.xml = {}
 
     def exitEquation(self, tree: ast.Equation):
+        if isinstance(tree.left, ast.Symbol):
+            # Declaration equation appended by flatten() for `Real x = 1;`: its left-hand
+            # side is the Symbol itself.  Refer to the variable by name; the component
+            # element of the symbol belongs to the class, not to the equation.
+            left = E("local", name=tree.left.name)
+        else:
+            left = self.xml[tree.left]
         self.xml[tree] = E(
             "equal",
-            self.xml[tree.left],
+            left,
             self.xml[tree.right],
         )
 
